@@ -59,6 +59,7 @@ type progGen struct {
 	p        *pool
 	rawOK    bool
 	excluded map[string]int // excluded draws (BASEFEE)
+	ex       *exclusions
 }
 
 func (g *progGen) w(ws ...int) int {
@@ -513,6 +514,10 @@ func (g *progGen) terminator(c *ctr) {
 func (g *progGen) runtime(depth int) ([]byte, int) {
 	switch g.w(92, 3, 3, 2) {
 	case 1:
+		if g.ex.on(exCodeMarker) {
+			g.ex.hit(exCodeMarker)
+			return []byte{0xe2, 0x9b, 0xbd}, 0
+		}
 		return []byte{0xe2, 0x9b, 0xbc}, 0 // code equal to the store's deletion marker
 	case 2:
 		return nil, 0 // a contract without code
